@@ -5,19 +5,22 @@ ED = "Source/Lib/Encoder/Codec/EbEncDecProcess.c"
 PK = "Source/Lib/Encoder/Codec/EbPacketizationProcess.c"
 def gen(wd):
     open(os.path.join(wd, "c26_psnr.inc"), "w").write(slicer.functions(ED, ["psnr_calculations"]))
-    blk = slicer.between(PK, "        if (scs_ptr->static_config.stat_report) {\n            output_stream_ptr->luma_sse", "        // Get Empty Rate Control Input Tasks")
+    blk = slicer.between(PK, "        if (scs_ptr->static_config.stat_report) {\n", "        // Get Empty Rate Control Input Tasks")
     open(os.path.join(wd, "c26_copy.inc"), "w").write("/* sliced verbatim from packetization_kernel */\nstatic void copy_stats(SequenceControlSet *scs_ptr, PictureControlSet *pcs_ptr, EbBufferHeaderType *output_stream_ptr) {\n" + blk + "\n}\n")
 META = {
     "level_text": "The real psnr_calculations (8-bit branch) on a small picture with every sample of source, saved source and reconstruction symbolic, symbolic origins/strides, reference and non-reference pictures, temporal filtering on/off: the three stored SSE values equal an independently written sum of squared differences over the VISIBLE samples (32-bit); plus the statistics copy of the packetization kernel (sliced): packet fields equal the picture's values iff statistics reporting is on.",
-    "level_note": "'Picture decoded from the packet' is replaced by the encoder's own reconstruction (their equality is C01's subject, not claimed). Picture 6x4 visible in 8x8; 10-bit branch not covered.",
+    "level_note": "'Picture decoded from the packet' is replaced by the encoder's own reconstruction (their equality is C01's subject, not claimed). The SSE-vs-specification queries (picture 6x4 visible in 8x8, ~15 min and 7 GB each) run in the thorough tier only; the quick tier checks the squaring macro and the statistics copy; 10-bit branch not covered.",
     "technique": "CBMC differential harness: real function vs. specification loop, all sample values symbolic",
     "assumptions": ["saved source planes have the geometry of the input picture", "squaring abstracted to an arbitrary function of the sample difference (its definition is checked by query sqr_macro_is_square)"],
     "outside": ["10-bit branch", "SSIM fields"],
     "stubs": [], "explanation": ""}
 def queries(tier):
-    return [Query(name="sse_8bit_6x4_origin%d_%d_tf%d_ref%d" % (ox, oy, tf, ref), harness="C26/psnr.c", gen=gen, defines=["ORIGX=%d" % ox, "ORIGY=%d" % oy, "TF=%d" % tf, "ISREF=%d" % ref], unwind=520, funcs=[ED + ":psnr_calculations"], timeout=1500, mem_gb=24,
-                  bound="visible 6x4 in a padded 8x8 picture, picture origin (%d,%d), temporal filtering %s, %s picture, all sample values of source, saved source and reconstruction" % (ox, oy, "on" if tf else "off", "reference" if ref else "non-reference"), what="SSE values exact over visible samples")
-            for ox, oy, tf, ref in ((2, 2, 0, 0), (2, 2, 1, 1), (0, 4, 1, 0), (0, 4, 0, 1))] + [
+    vw, vh = 6, 4
+    sse = [Query(name="sse_8bit_%dx%d_origin%d_%d_tf%d_ref%d" % (vw, vh, ox, oy, tf, ref), harness="C26/psnr.c", gen=gen, defines=["VW=%d" % vw, "VH=%d" % vh, "ORIGX=%d" % ox, "ORIGY=%d" % oy, "TF=%d" % tf, "ISREF=%d" % ref], unwind=520, funcs=[ED + ":psnr_calculations"], timeout=3000, mem_gb=24,
+                  bound="visible %dx%d in a padded 8x8 picture, picture origin (%d,%d), temporal filtering %s, %s picture, all sample values of source, saved source and reconstruction" % (vw, vh, ox, oy, "on" if tf else "off", "reference" if ref else "non-reference"), what="SSE values exact over visible samples")
+            for ox, oy, tf, ref in ((2, 2, 0, 0), (2, 2, 1, 1), (0, 4, 1, 0), (0, 4, 0, 1))]
+    # the SSE queries pass in 750-910 s / 7 GB each (measured); too slow for the per-change tier
+    return (sse if tier == "thorough" else []) + [
             Query(name="sqr_macro_is_square", harness="C26/psnr.c", entry="sqr_macro", gen=gen, defines=["CHECK_SQR_MACRO=1"], unwind=520, funcs=["Source/Lib/Common/Codec/EbUtility.h:SQR"], timeout=600, bound="all differences -255..255", what="the squaring macro used by the statistic is x*x"),
             Query(name="stats_copied_iff_enabled", harness="C26/copy.c", gen=gen, unwind=4, funcs=[PK + ":packetization_kernel (statistics copy, sliced)"], timeout=600,
                   bound="all values of the three SSE fields, stat_report on/off", what="packet carries the picture's SSE values exactly when reporting is enabled, zeros otherwise")]
